@@ -51,6 +51,16 @@ impl Hop {
     fn url(&self) -> String {
         format!("{}://{}{}?{}={}", self.scheme, self.authority(), self.path, self.k, self.v)
     }
+    /// the Location a server at `from` would send for this hop: absolute, or - when the scheme
+    /// stays - a network-path reference (`//authority/path?query`), or - when scheme and authority
+    /// stay - an absolute-path reference
+    fn location_from(&self, from: &Hop, form: usize) -> String {
+        match form % 3 {
+            1 if from.scheme == self.scheme => format!("//{}{}?{}={}", self.authority(), self.path, self.k, self.v),
+            2 if from.scheme == self.scheme && from.authority() == self.authority() => format!("{}?{}={}", self.path, self.k, self.v),
+            _ => self.url(),
+        }
+    }
 }
 
 struct Chain {
@@ -119,7 +129,7 @@ fn redirect_response(status: u16, location: &str) -> Vec<u8> {
 /// send `rb` (already carrying headers/body, URL = hop 0) through the chain and judge every hop
 fn run_chain<B: Body>(ctx: &mut Ctx, rb: RequestBuilder<B>, base: &Model, chain: &Chain, kind: &str) {
     let n = chain.statuses.len();
-    let responses: Vec<Vec<u8>> = (0..=n).map(|i| if i < n { redirect_response(chain.statuses[i], &chain.hops[i + 1].url()) } else { OK_RESPONSE.to_vec() }).collect();
+    let responses: Vec<Vec<u8>> = (0..=n).map(|i| if i < n { redirect_response(chain.statuses[i], &chain.hops[i + 1].location_from(&chain.hops[i], i + chain.hops[i + 1].port as usize + chain.hops[0].host.len())) } else { OK_RESPONSE.to_vec() }).collect();
     let servers: Arc<Mutex<Vec<(usize, std::thread::JoinHandle<ServerResult>)>>> = Arc::new(Mutex::new(Vec::new()));
     let servers2 = servers.clone();
     let world = World::install(move |req, idx, trace| {
